@@ -25,6 +25,7 @@ func c13Check(c timed.Cfg) func(o *obs.Obs) string {
 		want = append(want, fmt.Sprint(i))
 	}
 	return func(o *obs.Obs) string {
+		partial := o.Horizon // the execution was cut at the step horizon: only the prefix-closed clauses apply
 		tag := fmt.Sprintf("C13/ops=%d/cap=%d", c.Ops, c.Cap)
 		if p := o.AnyPanic(); p != "" {
 			return tag + "/panic|" + p
@@ -34,7 +35,7 @@ func c13Check(c timed.Cfg) func(o *obs.Obs) string {
 			return fmt.Sprintf("%s/order|received %v: not the input %v in order, each once", tag, got, want)
 		}
 		cancelled := o.Has("cancel")
-		if !cancelled {
+		if !cancelled && !partial {
 			if len(got) != c.K || !o.Has("got-eof") {
 				return fmt.Sprintf("%s/incomplete|input of %d elements closed, no cancel: received %v, closed=%v; library: %v", tag, c.K, got, o.Has("got-eof"), o.LibBlocked())
 			}
@@ -71,7 +72,7 @@ func c13Check(c timed.Cfg) func(o *obs.Obs) string {
 				}
 			}
 		}
-		if cancelled {
+		if cancelled && !partial {
 			if lb := o.LibBlocked(); len(lb) > 0 {
 				return fmt.Sprintf("%s/cancel-leak|after cancel: %v", tag, lb)
 			}
@@ -119,7 +120,8 @@ func c13Scenarios(tier string) []e1lib.Scenario {
 	var out []e1lib.Scenario
 	const I = 4
 	add := func(c timed.Cfg) {
-		out = append(out, e1lib.Scenario{Name: timedName(c), Root: func() { timed.Scenario(c) }, Check: c13Check(c), Count: c13Count(c), Bound: -1, Sample: c,
+		chk := c13Check(c)
+		out = append(out, e1lib.Scenario{Name: timedName(c), Root: func() { timed.Scenario(c) }, Check: chk, OnHorizon: chk, Count: c13Count(c), Bound: -1, Sample: c,
 			Nontrivial: func(outcomes, execs, states int) bool { return true }})
 	}
 	maxOps := 3
